@@ -65,6 +65,26 @@ func (s *checkpoint) Save() {
 	s.saveLock.Lock()
 	defer s.saveLock.Unlock()
 
+	// The marks of what is about to be saved are taken off the live set before the offsets are read:
+	// progress acknowledged from now on marks its vBucket again and is persisted by the next save,
+	// instead of being unmarked by this one without having been written.
+	dirtyOffsetsDump := map[uint16]bool{}
+	var dirtyOffsetCount int
+
+	dirtyOffsets.Range(func(vbID uint16, dirt bool) bool {
+		if dirt {
+			dirtyOffsetCount++
+		}
+
+		dirtyOffsetsDump[vbID] = dirt
+
+		return true
+	})
+
+	for vbID := range dirtyOffsetsDump {
+		dirtyOffsets.Delete(vbID)
+	}
+
 	checkpointDump := map[uint16]*models.CheckpointDocument{}
 
 	offsets.Range(func(vbID uint16, offset *models.Offset) bool {
@@ -83,19 +103,6 @@ func (s *checkpoint) Save() {
 		return true
 	})
 
-	dirtyOffsetsDump := map[uint16]bool{}
-	var dirtyOffsetCount int
-
-	dirtyOffsets.Range(func(vbID uint16, dirt bool) bool {
-		if dirt {
-			dirtyOffsetCount++
-		}
-
-		dirtyOffsetsDump[vbID] = dirt
-
-		return true
-	})
-
 	s.metric.OffsetWrite = dirtyOffsetCount
 
 	start := time.Now()
@@ -106,9 +113,18 @@ func (s *checkpoint) Save() {
 
 	if err == nil {
 		logger.Log.Trace("saved checkpoint")
-		s.stream.UnmarkDirtyOffsets()
+
+		if dirtyOffsets.Count() == 0 {
+			s.stream.UnmarkDirtyOffsets()
+		}
 	} else {
 		logger.Log.Error("error while saving checkpoint document: %v", err)
+
+		for vbID, dirt := range dirtyOffsetsDump {
+			if dirt {
+				dirtyOffsets.Store(vbID, true)
+			}
+		}
 	}
 }
 
